@@ -262,3 +262,82 @@ def run_verdict_indep(task):
     except Exception as e:   # noqa
         out["indep"] = {"error": "%s: %s" % (type(e).__name__, str(e)[:200])}
     return out
+
+
+def run_jacobian(task):
+    """symbolic Jacobian of the full system and of the numeric sub-system, evaluated exactly"""
+    import sympy
+    import odetoolbox
+    from odetoolbox.config import Config
+    from . import impl_worker
+    defaults = dict(Config.config)
+    subs = {sympy.Symbol(k): _rat(v) for k, v in task["point"].items()}
+    try:
+        try:
+            solvers, sys_, shapes = odetoolbox._analysis(task["indict"], disable_stiffness_check=True, **task.get("flags", {}))
+        except BaseException as e:   # noqa
+            return {"outcome": impl_worker.classify_exception(e), "detail": str(e)[:200]}
+        n = len(sys_.x_)
+        J = sys_.get_jacobian_matrix()
+        out = {"outcome": "Ok", "x": [str(s) for s in sys_.x_], "solvers": [{"solver": s["solver"], "state_variables": s["state_variables"]} for s in solvers],
+               "J": [[exact_eval(J[i, j], subs) for j in range(n)] for i in range(n)]}
+        num = [s for s in solvers if s["solver"].startswith("numeric")]
+        if num:
+            syms = [sympy.Symbol(v) for v in num[0]["state_variables"]]
+            sub = sys_.get_sub_system(syms)
+            Js = sub.get_jacobian_matrix()
+            m = len(sub.x_)
+            out["xsub"] = [str(s) for s in sub.x_]
+            out["Jsub"] = [[exact_eval(Js[i, j], subs) for j in range(m)] for i in range(m)]
+        return out
+    finally:
+        Config.config.clear()
+        Config.config.update(defaults)
+
+
+def run_numjac(task):
+    """MixedIntegrator.numerical_jacobian vs central finite differences of MixedIntegrator.step
+    (through the pygsl stand-in)"""
+    import numpy as np
+    import sympy
+    import pygsl.odeiv as odeiv
+    import odetoolbox
+    from odetoolbox.config import Config
+    from odetoolbox.mixed_integrator import MixedIntegrator
+    from . import impl_worker
+    defaults = dict(Config.config)
+    try:
+        try:
+            solvers, sys_, shapes = odetoolbox._analysis(task["indict"], disable_stiffness_check=True, disable_analytic_solver=task.get("disable_analytic", True))
+            num = [s for s in solvers if s["solver"].startswith("numeric")]
+            ana = [s for s in solvers if s["solver"] == "analytical"]
+            if not num:
+                return {"outcome": "NoNumericPart"}
+            sub = sys_.get_sub_system([sympy.Symbol(v) for v in num[0]["state_variables"]])
+            mi = MixedIntegrator(odeiv.step_bsimp, sub, shapes, analytic_solver_dict=(ana[0] if ana else None),
+                                 parameters=task["indict"].get("parameters", {}), spike_times={}, sim_time=1.0, max_step_size=0.5)
+            if ana:
+                from odetoolbox.analytic_integrator import AnalyticIntegrator
+                mi.analytic_integrator = AnalyticIntegrator(mi.analytic_solver_dict, {})
+        except BaseException as e:   # noqa
+            return {"outcome": impl_worker.classify_exception(e), "detail": str(e)[:300]}
+        m = len(sub.x_)
+        worst = 0.0
+        rows = []
+        for (t, y) in task["states"]:
+            y = np.array(y[:m], dtype=float)
+            Jn, _ = mi.numerical_jacobian(t, y, None)
+            fd = np.zeros((m, m))
+            h = 1e-6
+            for j in range(m):
+                yp, ym = y.copy(), y.copy()
+                yp[j] += h
+                ym[j] -= h
+                fd[:, j] = (np.array(mi.step(t, yp, None), dtype=float) - np.array(mi.step(t, ym, None), dtype=float)) / (2 * h)
+            err = float(np.max(np.abs(np.array(Jn, dtype=float) - fd) / (1.0 + np.abs(fd))))
+            worst = max(worst, err)
+            rows.append({"t": t, "y": y.tolist(), "J": np.array(Jn).tolist(), "fd": fd.tolist(), "err": err})
+        return {"outcome": "Ok", "worst": worst, "rows": rows[:2], "x": [str(s) for s in sub.x_], "has_analytic": bool(ana)}
+    finally:
+        Config.config.clear()
+        Config.config.update(defaults)
